@@ -20,6 +20,7 @@ from typing import TypeVar
 
 from jsonpath.function_extensions.filter_function import ExpressionType
 
+from . import _verif
 from .exceptions import JSONPathTypeError
 from .function_extensions import FilterFunction
 from .match import JSONPathMatch
@@ -484,11 +485,15 @@ class CachingFilterExpression(FilterExpression):
         self._cached: object = self._UNSET
 
     def evaluate(self, context: FilterContext) -> object:
+        if _verif.ENABLED:
+            _verif.cell(self, context, self._cached is not self._UNSET)
         if self._cached is self._UNSET:
             self._cached = self._expr.evaluate(context)
         return self._cached
 
     async def evaluate_async(self, context: FilterContext) -> object:
+        if _verif.ENABLED:
+            _verif.cell(self, context, self._cached is not self._UNSET)
         if self._cached is self._UNSET:
             self._cached = await self._expr.evaluate_async(context)
         return self._cached
